@@ -1,9 +1,11 @@
 /-
-  C12 — positioning maps faithfully to WebVTT cue settings (arithmetic part).
+  C12 — positioning survives the DFXP region attributes and maps faithfully to WebVTT cue settings.
 -/
 import PcVerif.Model.VttPos
+import PcVerif.Lemmas.DfxpLayoutLemmas
+import PcVerif.Lemmas.RegionLemmas
 namespace PcVerif.Props.C12
-open PcVerif PcVerif.Geo PcVerif.VttPos
+open PcVerif PcVerif.Geo PcVerif.VttPos PcVerif.DfxpLayout
 
 /-- **C12 (WebVTT arithmetic).** for a percentage layout with origin (x, y), extent width w and padding
     (before b, start s, end e): position = x + s, line = y + b, size = w − s − e -/
@@ -39,5 +41,56 @@ theorem vtt_settings_verbatim (rel fit : Bool) (w h : Nat) (l : Layout) (raw : S
     | cons c cs => simp [Layout.truthy, hr]
   have he : raw.isEmpty = false := by cases raw <;> simp_all
   simp [convert, ht, hr, he]
+
+
+/-! ### DFXP: layout → region attributes → layout -/
+
+/-- **C12 (DFXP, the attributes of a region).** for EVERY layout with non-negative sizes (any units, any number of decimals, any
+    parts absent) — and for no layout at all — the reader builds from the attributes the writer prints for it (`tts:origin`,
+    `tts:extent`, `tts:padding`, `tts:textAlign`, `tts:displayAlign`) the same layout: every size is the written one rounded half
+    to even to hundredths (what printing keeps), absent parts stay absent, and the alignment's absent parts take the DFXP
+    defaults start / after.  Printing of sizes, splitting at blanks, the padding order before-end-after-start and the
+    regenerated alignment name tables are all inside this statement. -/
+theorem region_attrs_roundtrip (lo : Option Layout) (hnn : ∀ l, lo = some l → NonNegLayout l) :
+    readRegion (layoutAttrs lo) = .ok (some (effective lo)) :=
+  region_roundtrip lo hnn
+
+/-- **C12 (DFXP, exact).** a layout whose sizes have at most two decimals (percentages like 12.5 % or 33.33 %) comes back
+    exactly: same origin, extent and padding, alignment completed with start / after -/
+theorem region_attrs_roundtrip_exact (l : Layout) (hh : HundredthsLayout l) (ht : l.truthy = true) :
+    readRegion (layoutAttrs (some l)) = .ok (some ⟨l.origin, l.extent, l.padding, some (effAlign l.alignment), none⟩) :=
+  region_roundtrip_exact l hh ht
+
+/-- **C12 (DFXP, alignment names).** all 24 combinations of a horizontal and a vertical alignment, each possibly absent: written
+    and read back, the alignment is the same with start / after in the absent places -/
+theorem alignment_attrs_roundtrip (h : Option HAlign) (v : Option VAlign) :
+    internalAlign (orDefault (alignAttrs (some ⟨h, v⟩)).1 (hAttr defaultAlignment.h))
+      (orDefault (alignAttrs (some ⟨h, v⟩)).2 (vAttr defaultAlignment.v))
+      = some ⟨some (h.getD .start), some (v.getD .bottom)⟩ :=
+  align_roundtrip h v
+
+/-- the default region's alignment, as the source says now -/
+theorem default_alignment_pinned : defaultAlignment = ⟨some .start, some .bottom⟩ := default_alignment_is
+
+/-- **C12 (DFXP, a layout's region is its own).** whatever layouts a document holds (`layouts`: those of all languages, captions
+    and nodes, in order, repeats allowed) and whatever ids its styles use: a layout that occurs is assigned the region made for
+    exactly this layout — not the fallback — no other layout is registered under that id, and two different layouts never get
+    the same region.  (Equality of layouts is decidable equality of the model; that Python's `==` and `hash` agree with it is
+    C18's `layout_eq_iff` / `layout_eq_imp_hash_eq`.) -/
+theorem layout_gets_own_region {L : Type} [DecidableEq L] (dflt : String) (taken : List String) (layouts : List L) (l : L)
+    (hl : l ∈ layouts) :
+    (l, Regions.assign dflt (Regions.regionMap taken layouts) (some l)) ∈ Regions.regionMap taken layouts ∧
+    (∀ l', (l', Regions.assign dflt (Regions.regionMap taken layouts) (some l)) ∈ Regions.regionMap taken layouts → l' = l) ∧
+    (∀ l', l' ≠ l → l' ∈ layouts →
+      Regions.assign dflt (Regions.regionMap taken layouts) (some l') ≠ Regions.assign dflt (Regions.regionMap taken layouts) (some l)) :=
+  Regions.assign_own_region dflt taken layouts l hl
+
+/-- non-vacuity: a layout with an origin at (12.5 %, 80 %), an extent and a one-sided alignment meets the hypotheses -/
+example : HundredthsLayout ⟨some ⟨⟨mkRat 1250 100, .pct⟩, ⟨mkRat 8000 100, .pct⟩⟩, some ⟨⟨mkRat 7500 100, .pct⟩, ⟨mkRat 1000 100, .pct⟩⟩, none,
+    some ⟨some .center, none⟩, none⟩ := by
+  refine ⟨?_, ?_, ?_⟩
+  · intro p h; cases h; exact ⟨⟨1250, rfl⟩, ⟨8000, rfl⟩⟩
+  · intro p h; cases h; exact ⟨⟨7500, rfl⟩, ⟨1000, rfl⟩⟩
+  · intro p h; cases h
 
 end PcVerif.Props.C12
